@@ -461,3 +461,47 @@ func vfH_C16_findperiod_clean_large() {
 		vfAssert("findperiod/parity-period-is-ps-or-unknown", gp == -1 || gp == r.p)
 	}
 }
+
+// C10/C09: a parity packet is exactly as long as the longest data packet of ITS OWN group —
+// whatever the previous group looked like and whether or not the previous group's parity was
+// skipped (non-continuous data). A stale length carried over from an earlier group would put
+// parity on the wire that is longer than anything the current configuration allows.
+func vfH_C10_parity_length() {
+	r := vfPickRatio("ratio")
+	enc := newFECEncoder(r.d, r.p, 0)
+	enc.next = vfGroupBase(r.d + r.p)
+	enc.tsLatestPacket = vfRecentMilli("tsLatest")
+	// group 0 holds long packets, group 1 short ones (and the other way round)
+	lens := [][]int{{5, 5, 5, 5, 1, 2, 1, 1}, {1, 1, 1, 1, 4, 2, 3, 1}}[vfPick("lens", 0, 1)]
+	var sent []vfSent
+	for g := 0; g < 2; g++ {
+		for i := 0; i < r.d; i++ {
+			l := lens[g*4+i%4]
+			b := make([]byte, fecHeaderSizePlus2+l)
+			copy(b[fecHeaderSizePlus2:], vfBytes(vfName(vfName("pay", g)+"_", i), l))
+			vfBeforeEncode()
+			ps := enc.encode(b, maxFECEncodeLatency)
+			sent = append(sent, vfSent{pkt: vfCopy(b), data: true, idx: i, group: g})
+			for k := range ps {
+				sent = append(sent, vfSent{pkt: vfCopy(ps[k]), data: false, idx: r.d + k, group: g})
+			}
+		}
+	}
+	vfReach("encoded")
+	nparity := 0
+	for g := 0; g < 2; g++ {
+		longest := 0
+		for _, s := range sent {
+			if s.group == g && s.data && len(s.pkt) > longest {
+				longest = len(s.pkt)
+			}
+		}
+		for _, s := range sent {
+			if s.group == g && !s.data {
+				nparity++
+				vfAssert("c10/parity-as-long-as-the-longest-data-packet-of-its-group", len(s.pkt) == longest)
+			}
+		}
+	}
+	vfAssert("c10/parity-count", nparity == 0 || nparity == r.p || nparity == 2*r.p)
+}
